@@ -185,7 +185,7 @@ func init() {
 
 // c15Paint runs the program on a real Renderer and returns the paint handed to Draw.
 func c15Paint(stops c15Stops, spread, shape int, m [6]float32, mp c15Map, ras *rec.Raster) *rec.Paint {
-	dr, _ := c15Paint2(stops, spread, shape, m, mp, ras)
+	dr, _ := c15Paint2(stops, spread, shape, m, mp, ras, c15Layouts[0])
 	if dr == nil {
 		return nil
 	}
@@ -208,15 +208,22 @@ func c15Square(z *render.Renderer, mp c15Map, ras *rec.Raster) *rec.RCall {
 	return nil
 }
 
-func c15Paint2(stops c15Stops, spread, shape int, m [6]float32, mp c15Map, ras *rec.Raster) (*rec.RCall, *render.Renderer) {
+// register layouts: colour base, number base, register of the gradient value. With 58 stops the
+// stop registers wrap in every layout; in the second and third the six matrix registers
+// NREG[NBASE-6..NBASE-1] wrap past NREG[63] resp. the offsets do.
+type c15Layout struct{ cbase, nbase, gsel uint8 }
+
+var c15Layouts = []c15Layout{{12, 20, 8}, {60, 3, 56}, {5, 62, 2}}
+
+func c15Paint2(stops c15Stops, spread, shape int, m [6]float32, mp c15Map, ras *rec.Raster, lay c15Layout) (*rec.RCall, *render.Renderer) {
 	z := new(render.Renderer)
 	ras.ResetLog()
-	z.SetRasterizer(ras, mp.rect)
+	// the target is configured twice: another rectangle first, the final one only after Reset
+	z.SetRasterizer(ras, image.Rect(3, 1, 3+mp.rect.Dy()+5, 1+mp.rect.Dx()+2))
 	z.Reset(mp.vb, ivg.DefaultPalette)
-	// CBASE 12, NBASE 20 (different on purpose); with 58 stops the colours wrap to CREG[5] and the
-	// offsets to NREG[13]; the matrix sits in NREG[14..19], the gradient value in CREG[8]
-	z.SetCSel(12)
-	z.SetNSel(20)
+	z.SetRasterizer(ras, mp.rect)
+	z.SetCSel(lay.cbase)
+	z.SetNSel(lay.nbase)
 	for i := 0; i < 6; i++ {
 		z.SetNReg(uint8(6-i), false, m[i])
 	}
@@ -224,8 +231,8 @@ func c15Paint2(stops c15Stops, spread, shape int, m [6]float32, mp c15Map, ras *
 		z.SetCReg(0, true, ivg.RGBAColor(s.Color))
 		z.SetNReg(0, true, float32(s.Offset))
 	}
-	z.SetCSel(8)
-	z.SetCReg(0, false, ivg.RGBAColor(color.RGBA{uint8(len(stops)), 12 | uint8(spread)<<6, 20 | 0x80 | uint8(shape)<<6, 0}))
+	z.SetCSel(lay.gsel)
+	z.SetCReg(0, false, ivg.RGBAColor(color.RGBA{uint8(len(stops)), lay.cbase | uint8(spread)<<6, lay.nbase | 0x80 | uint8(shape)<<6, 0}))
 	return c15Square(z, mp, ras), z
 }
 
@@ -238,7 +245,7 @@ func c15Check(w *mc.W, cs *c15Case) {
 	m := mats[cs.Mat]
 	mp := c15Maps(cs.Exact)[cs.Map]
 	var ras rec.Raster
-	desc := fmt.Sprintf("stops %v spread %d shape %d matrix %v viewBox %v rect %v", stops, cs.Spread, cs.Shape, m, mp.vb, mp.rect)
+	desc := fmt.Sprintf("stops %v spread %d shape %d matrix %v viewBox %v rect %v (CBASE %d NBASE %d)", stops, cs.Spread, cs.Shape, m, mp.vb, mp.rect, c15Layouts[(cs.Mat+cs.Map)%len(c15Layouts)].cbase, c15Layouts[(cs.Mat+cs.Map)%len(c15Layouts)].nbase)
 	fail := func(key, what string, px, py int) {
 		c := *cs
 		c.Desc = desc
@@ -247,7 +254,8 @@ func c15Check(w *mc.W, cs *c15Case) {
 		}
 		w.Fail(key, desc+": "+what, c)
 	}
-	dr, z := c15Paint2(stops, cs.Spread, cs.Shape, m, mp, &ras)
+	lay := c15Layouts[(cs.Mat+cs.Map)%len(c15Layouts)]
+	dr, z := c15Paint2(stops, cs.Spread, cs.Shape, m, mp, &ras, lay)
 	if dr == nil || dr.Paint.Kind != 2 {
 		fail("no-gradient-paint", fmt.Sprintf("valid gradient was not handed to the rasteriser (%v)", dr), math.MinInt32, 0)
 		return
@@ -435,7 +443,7 @@ func c15Check(w *mc.W, cs *c15Case) {
 				m2[i] += 0.25
 			}
 		}
-		z.SetNSel(20)
+		z.SetNSel(lay.nbase)
 		for i := 0; i < 6; i++ {
 			z.SetNReg(uint8(6-i), false, m2[i])
 		}
@@ -477,19 +485,19 @@ func c15Check(w *mc.W, cs *c15Case) {
 		if step(2, cur) {
 			last := len(cur) - 1
 			cur[last].Color = color.RGBA{0x12, 0x34, 0x56, 0x78}
-			z.SetCSel(uint8(12 + last))
+			z.SetCSel((lay.cbase + uint8(last)) & 63)
 			z.SetCReg(0, false, ivg.RGBAColor(cur[last].Color))
-			z.SetCSel(8)
+			z.SetCSel(lay.gsel)
 			if step(3, cur) {
 				// move the first stop down (stays strictly increasing and within [0,1] when it was > 0;
 				// otherwise move the last stop up towards 1)
 				if cur[0].Offset > 0 {
 					cur[0].Offset = float64(float32(cur[0].Offset / 2))
-					z.SetNSel(20)
+					z.SetNSel(lay.nbase)
 					z.SetNReg(0, false, float32(cur[0].Offset))
 				} else if cur[last].Offset < 1 {
 					cur[last].Offset = float64(float32((cur[last].Offset + 1) / 2))
-					z.SetNSel(uint8(20 + last))
+					z.SetNSel((lay.nbase + uint8(last)) & 63)
 					z.SetNReg(0, false, float32(cur[last].Offset))
 				}
 				step(4, cur)
